@@ -302,6 +302,7 @@ Lemma sm_md_c : forall sn msgs,
 Proof.
   intros sn msgs. unfold Dest.state_machine.
   rewrite (b_ok _ _ _ _ _ (check_md cd rd crc large srcid idw seq seqw Hrem _ _ _ _ _ (dst_init cd) eq_refl eq_refl)).
+  unfold catch_abandoned; apply catch_ok.
   unfold dst_init at 1. mrun. fold (dst_init cd).
   rewrite (b_ok _ _ _ _ _ (idle_md_c sn msgs)).
   unfold dstateC at 1, PerfectLinkProofs.hS. mrun. fold hS.
@@ -315,6 +316,7 @@ Lemma sm_fd_c : forall off data fs lg old, lookup fs [x] = Some (File old) ->
 Proof.
   intros off data fs lg old Hl. unfold Dest.state_machine.
   rewrite (b_ok _ _ _ _ _ (check_fd cd rd crc large srcid idw seq seqw Hrem off data (dstateC off fs lg) eq_refl eq_refl)).
+  unfold catch_abandoned; apply catch_ok.
   unfold dstateC at 1, PerfectLinkProofs.hS. mrun. fold hS.
   apply nif_fd_c. exact Hl.
 Qed.
@@ -362,6 +364,7 @@ Lemma sm_eof_c : forall cks fl fs lg data,
 Proof.
   intros cks fl fs lg data Hl Hck. unfold Dest.state_machine.
   rewrite (b_ok _ _ _ _ _ (check_eof cd rd crc large srcid idw seq seqw Hrem C_NO_ERROR cks fsz fl (dstateC fsz fs lg) eq_refl eq_refl)).
+  unfold catch_abandoned; apply catch_ok.
   unfold dstateC at 1, PerfectLinkProofs.hS. mrun. fold hS.
   eapply nif_eof_c; eassumption.
 Qed.
